@@ -50,6 +50,9 @@ def respelled(fam, vec):
     return T.spell(fam, asg, order)
 
 
+_FOREIGN = {}
+
+
 def make_ops(fam, vec=None):
     ops = [
         ("scores", lambda o, f: o.scores()),
@@ -59,6 +62,23 @@ def make_ops(fam, vec=None):
         ("eq_twin", lambda o, f: (o == f, f == o, o != f)),
         ("hash", lambda o, f: hash(o) == hash(f)),
     ]
+    foreign = {"2": "AV:N/AC:L/Au:N/C:P/I:P/A:P", "3.0": "CVSS:3.0/AV:N/AC:L/PR:N/UI:N/S:U/C:H/I:H/A:H",
+               "3.1": "CVSS:3.1/AV:N/AC:L/PR:N/UI:N/S:U/C:H/I:H/A:H",
+               "4.0": "CVSS:4.0/AV:N/AC:L/AT:N/PR:N/UI:N/VC:H/VI:H/VA:H/SC:N/SI:N/SA:N"}
+
+    def eq_foreign(o, f):
+        """== and != with objects of every other version (both operand orders) and other types."""
+        out = []
+        for f2, v2 in sorted(foreign.items()):
+            x = _FOREIGN.get(f2)
+            if x is None:
+                x = _FOREIGN[f2] = observe.cls_of(f2)(v2)
+            out.append([f2, o == x, x == o, o != x, x != o])
+        for y in (None, 7.5, "", o.clean_vector(), (1,), object):
+            out.append([repr(type(y)), o == y, o != y])
+        return out
+
+    ops.append(("eq_other_versions_and_types", eq_foreign))
     if vec is not None:
         other = respelled(fam, vec)
         ops.append(("eq_respelled", lambda o, f: (o == type(o)(other), type(o)(other) == o, o != type(o)(other))))
@@ -384,7 +404,7 @@ def _task(t):
 
 def run(ctx, res):
     sd = seeds(40 if ctx.thorough else 20)
-    deep = set(range(0, len(sd), 1 if ctx.thorough else 3))
+    deep = set(range(0, len(sd), 1 if ctx.thorough else 5))
     tasks = [(fam, vec, 3 if i in deep else 2) for i, (fam, vec) in enumerate(sd)]
     accs = core.task_map(_task, ctx.rot(tasks))
     groups = []
